@@ -70,7 +70,7 @@ def gen_doc(rng, path):
             formula = "(" + formula + ") * " + keyword if rng.chance(1, 2) else "(" + formula + ") / (1 + " + keyword + ")"
         kl = r.createKineticLaw()
         locals_ = {}
-        lm = rng.below(4)           # local parameters: none / shadow a global / shadow and a private one
+        lm = rng.below(5)           # local parameters: none / shadow a global / shadow and a private one / (4) see below
         if lm >= 1:
             lp = kl.createLocalParameter(); lp.setId("k"); v = rng.choice([5.0, 7.0, 11.0]); lp.setValue(v); locals_["k"] = v
         if lm >= 2:
@@ -78,6 +78,12 @@ def gen_doc(rng, path):
         if lm == 3:
             lp = kl.createLocalParameter(); lp.setId("kloc"); v = rng.choice([0.1, 0.3]); lp.setValue(v); locals_["kloc"] = v
             formula = formula + " + kloc"
+        if lm == 4:
+            # a local parameter that shadows a global which rules may drive (q by an assignment rule, w by a rate rule) and
+            # happens to have the same value attribute: inside this reaction it is still the local constant
+            g_ = rng.choice(["q", "w"])
+            lp = kl.createLocalParameter(); lp.setId(g_); lp.setValue(desc["globals"][g_]); locals_[g_] = desc["globals"][g_]
+            formula = "(" + formula + ") * " + g_
         kl.setMath(libsbml.parseL3Formula(formula))
         desc["reactions"].append({"id": rid, "reactants": reac, "products": prods, "modifiers": mods, "law": formula, "locals": locals_})
     # rules in any order: assignment rules on R1 / q, rate rules on R2 / D / w
